@@ -92,6 +92,18 @@ def confirm(pid, m):
             rec["multiplexer_rerun_rc"] = rc2
             if rc2 == 0:
                 bad = "\n".join(l for l in bad.splitlines() if "multiplexer" not in l and not l.startswith(("---", "panic", "\t", "goroutine", "[signal", "FAIL", "    ")) ).strip()
+        if bad:
+            # load-sensitive tests of the unmodified tree (timing assertions) fail now and then when many suites run at once:
+            # every package the run reports as failed is re-run alone; the suite counts as passed only if each of them passes then
+            pkgs = sorted(set(re.findall(r"^FAIL\s+github.com/siglens/siglens/(\S+)", bad, re.M)))
+            rer = {}
+            for pk_ in pkgs:
+                rc3, out3 = sh(f"go test -vet=off -count=1 ./{pk_}/", cwd=wt)
+                rer[pk_] = rc3
+            rec["failed_packages_rerun_alone"] = rer
+            if pkgs and all(v == 0 for v in rer.values()):
+                rec["suite_failures_first_run"] = bad[-1500:]
+                bad = ""
         rec["suite_failures"] = bad[-3000:]
         rec["suite_ok"] = bad == ""
         return rec
